@@ -102,8 +102,18 @@ func packetSeeds() []packetSeed {
 		packetSeed{"null", "transfer", "channel-7"},
 		packetSeed{"[]", "transfer", "channel-7"},
 		packetSeed{`{"denom":null,"amount":null,"receiver":null,"memo":null}`, "transfer", "channel-7"},
+		packetSeed{`{"denom":"transfer/channel-7/uusdc","amount":"1","receiver":` + jq(orb) + `,"receiver":null,"memo":` + jq(m) + `}`, "transfer", "channel-7"},
+		packetSeed{`{"denom":"transfer/channel-7/uusdc","amount":"1","receiver":null,"receiver":` + jq(orb) + `,"memo":` + jq(m) + `}`, "transfer", "channel-7"},
+		packetSeed{`{"denom":"transfer/channel-7/uusdc","amount":"1","Receiver":` + jq(orb) + `,"memo":` + jq(m) + `}`, "transfer", "channel-7"},
+		packetSeed{`{"denom":"transfer/channel-7/uusdc","amount":"1","receiver":` + jq(orb) + `,"memo":` + jq(m) + `,"x":1}`, "transfer", "channel-7"},
+		packetSeed{`{"denom":"transfer/channel-7/uusdc","amount":"1","receiver":` + jq(orb) + `,"memo":` + jq(m) + `} x`, "transfer", "channel-7"},
 	)
 	return out
+}
+
+func jq(s string) string {
+	bz, _ := json.Marshal(s)
+	return string(bz)
 }
 
 func upperTail(addr string) string {
